@@ -900,9 +900,6 @@ class World:
             self._bddmod.reorder(self.b, order)
 
     def op_sift(self):
-        if len(self.order) < 2 and not self.cfg.get('sift_small'):
-            # sifting with fewer than two variables: separate class
-            return
         before = self._held_snapshot()
         led = self.ledger()
         size0 = len(reachable(self.b, [u for u, c in led.items() if c > 0]))
